@@ -3,3 +3,7 @@ open XsVerif.Props.C01
 #print axioms oracle_decides_language
 #print axioms oracle_decides_open_content
 #print axioms rejected_reports_error
+#print axioms visitor_counterexample_greedy_split
+#print axioms visitor_counterexample_choice_excess
+#print axioms visitor_counterexample_emptiable_repeat
+#print axioms error_index_in_range
